@@ -168,10 +168,7 @@ Print Assumptions C13_vm_dnextm_nearest_while_listed.
 
 (* FINDING (pinned tree): when the group being iterated loses its last light between two
    steps (here: light "a" re-reports group "h"), dnextm does not end the iteration with
-   NULL but calls .next on None -- AttributeError, the script is aborted.  The statement
-   wanted instead (provable once dnextm treats a vanished group as exhausted) is
-     forall d op name fwd cur, dir_inv d -> set_by_oper d op name = None ->
-       vm_dnextm d op name fwd cur = DNull.                                           *)
+   NULL but calls .next on None -- AttributeError, the script is aborted. *)
 Theorem C13_member_iteration_group_vanished_refuted :
   exists h s g cur,
     vm_discm (run h) OGroup g true = DName cur /\
@@ -179,6 +176,15 @@ Theorem C13_member_iteration_group_vanished_refuted :
     vm_dnextm (run (h ++ [s])) OGroup g true cur = DFault.
 Proof. exact member_iteration_group_vanished_refuted. Qed.
 Print Assumptions C13_member_iteration_group_vanished_refuted.
+
+(* The repaired dnextm (a vanished group or location is an exhausted one): nearest remaining
+   member, NULL when none is left, never a fault.  The correspondence runs report which of
+   vm_dnextm / vm_dnextm_fixed the tree under test implements. *)
+Theorem C13_vm_dnextm_fixed_nearest : forall d op name fwd cur, dir_inv d ->
+  ~ In EmptyString (members_now d op name) ->
+  exists r, vm_dnextm_fixed d op name fwd cur = to_result r /\ nearest fwd (members_now d op name) cur r.
+Proof. exact vm_dnextm_fixed_nearest. Qed.
+Print Assumptions C13_vm_dnextm_fixed_nearest.
 
 (* CPython's binary searches (bisect_left, bisect = bisect_right) return, on every sorted
    list, the positions the model's definitions use. *)
